@@ -156,6 +156,33 @@ theorem parse_render_perm (σ : Style) (d : Doc) (hwf : WF σ d = true) :
       List.nil_append, List.filter_append, List.map_append]
     exact List.perm_append_comm
 
+/-- `parse_render_partial` as it was stated before repeated headers, `key =` and blanks inside quotes were admitted
+(the former `WF` is the present one plus `Strict`: distinct section names, non-empty unquoted values, no blanks
+directly inside quotes): then every section is read on its own and every value literally, and the present theorem
+says what the former one said. -/
+theorem parse_render_strict (σ : Style) (d : Doc) (hwf : WF σ d = true) (hst : Strict d = true) :
+    meaning d = literalMeaning d.secs ∧
+    parseView (render σ d) = match d.secs.reverse with
+      | [] => []
+      | last :: initRev => literalMeaning [last] ++ literalMeaning initRev.reverse := by
+  simp only [Strict, Bool.and_eq_true, List.all_eq_true] at hst
+  obtain ⟨hd, hb⟩ := hst
+  have hm : ∀ secs : List Sec, (∀ s ∈ secs, s ∈ d.secs) → PV.IniSpec.meaningIn d.secs secs = literalMeaning secs := by
+    intro secs hsub
+    rw [meaningIn_of_distinct d.secs hd secs hsub, meaningOf_strict secs (fun s hs => hb s (hsub s hs))]
+  refine ⟨hm d.secs (fun s hs => hs), ?_⟩
+  rw [parse_render_partial σ d hwf]
+  cases hr : d.secs.reverse with
+  | nil =>
+    have hs : d.secs = [] := by simpa using hr
+    simp [listed, hs, PV.IniSpec.meaningIn, PV.IniSpec.lookupOrder]
+  | cons last initRev =>
+    have hs : d.secs = initRev.reverse ++ [last] := by
+      have := congrArg List.reverse hr
+      simpa using this
+    rw [listed_eq d initRev.reverse last hs, hm [last] (by intro s h; rw [hs]; simp at h; simp [h]),
+      hm initRev.reverse (by intro s h; rw [hs]; simp at h; simp [h])]
+
 /-- Lookups: every key of the meaning is reported present and `p_ini_file_parameter_string` returns its
 value, whatever default is passed. -/
 theorem lookup_render (σ : Style) (d : Doc) (hwf : WF σ d = true) (n : Bytes) (kvs : List (Bytes × Bytes))
@@ -445,6 +472,9 @@ example : parameterString (parse (render ⟨.none⟩ repeatedDoc)) [97] [107] (s
   (lookup_render ⟨.none⟩ repeatedDoc (by decide) [97] [([107], [49])] (by decide) [107] [49] (by decide) (some [100])).2.2
 example : parameterString (parse (render ⟨.utf8⟩ sampleDoc)) [115] [113] none = some [97, 61, 98] :=
   (lookup_render ⟨.utf8⟩ sampleDoc (by decide) [115] [([107], [119]), ([113], [97, 61, 98])] (by decide) [113] [97, 61, 98] (by decide) none).2.2
+example : Strict { sampleDoc with secs := sampleDoc.secs.drop 1 } = true := by decide
+example : parseView (render ⟨.none⟩ { sampleDoc with secs := sampleDoc.secs.drop 1 }) = [([116], [([110], [52, 50])])] :=
+  (parse_render_strict ⟨.none⟩ { sampleDoc with secs := sampleDoc.secs.drop 1 } (by decide) (by decide)).2
 example : (parse f3Input = []) := by decide
 example : atoi [32, 45, 49, 50, 120] = .val (-12) := by decide
 example : atoi [50, 49, 52, 55, 52, 56, 51, 54, 52, 56] = .overflow := by decide
